@@ -148,6 +148,11 @@ class Binder:
                 inner = dict(ctes)
                 if recursive:
                     inner[name.lower()] = Cols([], True)
+                elif name.lower() not in ctes and self._mentions_table(cte["query"], name):
+                    # a CTE that selects from itself in a WITH list that is not RECURSIVE: its own name is not in
+                    # scope inside its body (and if a database table of that name exists, that table is read instead)
+                    self.problem("cte_self_reference_without_recursive", "CTE %r refers to itself but the WITH clause is not RECURSIVE" % name)
+                    inner[name.lower()] = Cols([], True)
                 cols = self.query(cte["query"], inner)
                 acols = cte.get("alias", {}).get("columns") or []
                 if acols:
@@ -170,6 +175,28 @@ class Binder:
                     # set operation: only output names are addressable
                     self.expr(e, [("", cols)], ctes, extra=[], where="ORDER BY(set)")
         return cols
+
+    def _mentions_table(self, node, name):
+        """does a FROM / JOIN anywhere inside node name the (unqualified) table `name`?"""
+        found = [False]
+
+        def walk(e):
+            if found[0]:
+                return
+            if isinstance(e, list):
+                for x in e:
+                    walk(x)
+            elif isinstance(e, dict):
+                t = e.get("Table")
+                if isinstance(t, dict) and "name" in t:
+                    parts = obj_name(t.get("name"))
+                    if parts and len(parts) == 1 and parts[0].lower() == name.lower():
+                        found[0] = True
+                        return
+                for v in e.values():
+                    walk(v)
+        walk(node)
+        return found[0]
 
     def setexpr(self, b, ctes):
         """-> (output Cols, scope of a simple select or None, select aliases)"""
